@@ -37,11 +37,12 @@ def main():
             if name.startswith("refactor"):
                 # behaviour-preserving refactoring: NO check may alarm
                 alarms = {}
-                for c_ in ALL:
+                # SEEDED_REFACTOR_CHECKS=own: only the check of the refactoring's own property (a quicker pass)
+                for c_ in ([meta["property"]] if os.environ.get("SEEDED_REFACTOR_CHECKS") == "own" else ALL):
                     r = subprocess.run([PY, os.path.join(VERIF, "check.py"), c_, "--repo", dst, "--no-evidence", "--no-selfcheck"], capture_output=True, text=True)
                     if r.returncode != 0:
                         alarms[c_] = (r.returncode, [l.strip().split(" (in")[0] for l in r.stdout.splitlines() if l.strip().startswith(("signature", "HARNESS"))][:2])
-                print("%-14s %s %s" % (name, "ok   no alarm in 11 checks" if not alarms else "UNEXPECTED ALARM", alarms or ""), flush=True)
+                print("%-14s %s %s" % (name, ("ok   no alarm in %s" % ("its own check" if os.environ.get("SEEDED_REFACTOR_CHECKS") == "own" else "11 checks")) if not alarms else "UNEXPECTED ALARM", alarms or ""), flush=True)
                 if alarms:
                     bad += 1
                 continue
